@@ -63,13 +63,20 @@ var targets = []string{
 	// EFFECT MODE: the SECS-I inbound assembler (C17)
 	"secs1.assembler.accept", "secs1.assembler.beginMessage", "secs1.assembler.startMessage",
 	"secs1.assembler.appendBlock", "secs1.assembler.complete", "secs1.assembler.reset", "secs1.assembler.report",
+	// EFFECT MODE + I/O (translate_io.go): the SECS-I line engine (C18, C17) and the HSMS-SS frame reader (C04)
+	"secs1.lineIO.readByte", "secs1.lineIO.readFull", "secs1.lineIO.writeByte", "secs1.lineIO.writeAll",
+	"secs1.lineIO.drainUntilSilence", "secs1.lineIO.receiveBlock",
+	"secs1.lineIO.sendBlockData", "secs1.lineIO.sendBlockOnce", "secs1.lineIO.sendBlock",
+	"hsmsss.readN", "hsmsss.transport.readFrame",
+	// the reconnect backoff's clamp, the float product as an oracle value (C11)
+	"hsms.nextBackoffDelay",
 }
 
 // probes are known to be outside the subset; they are attempted on every run so that status.json records
 // the construct that keeps each of them out (and so that a refactoring which makes one translatable shows up).
 var probes = []string{
-	"hsms.nextBackoffDelay", "hsms.supervisor.run", "hsms.supervisor.emit", "hsms.supervisor.requestClose", "hsms.DecodeHSMSMessage", "hsms.decodeOwnedFrame", "hsms.NewDataMessage",
-	"hsms.replyRegistry.route", "hsmsss.transport.readFrame", "hsmsss.transport.recvLoop", "secs2.decodeItem",
+	"hsms.supervisor.run", "hsms.supervisor.emit", "hsms.supervisor.requestClose", "hsms.DecodeHSMSMessage", "hsms.decodeOwnedFrame", "hsms.NewDataMessage",
+	"hsms.replyRegistry.route", "hsmsss.transport.recvLoop", "secs2.decodeItem",
 	"secs2.ListItem.EncodedLen", "secs1.newAssembler", "sml.Parser.skipSpace",
 }
 
